@@ -37,6 +37,7 @@ class Contract:
         self.float_mode = kw.pop("float_mode", "REAL")
         self.compare_state = kw.pop("compare_state", True)
         self.skip_config = kw.pop("skip_config", None)
+        self.spec_first = kw.pop("spec_first", False)
         self.raises = kw.pop("raises", None)  # {exception class name: condition text}: raised iff condition
         self.opts = kw
         if kw.keys() - {"note", "canaries", "max_paths", "replay_candidates"}:
@@ -406,7 +407,19 @@ def verify_config(I, c, fn, specf, cfg):
         S, args1 = build_args(I, c, cfg)
         for r in c.requires:
             S.assume(r, args1)
-        # the path facts must be satisfiable, otherwise everything below is vacuous
+        # The spec runs FIRST: its lists are then built in their general form, before the branch decisions of
+        # the real body specialise the path (the real body re-uses the same hash-consed terms).
+        sp = None
+        if specf is not None and c.spec_first:
+            try:
+                S2, args2 = build_args(I, c, cfg)
+                I.verifying = None
+                sp = run_outcome(I, lambda: call_with(I, specf, args2, True))
+            except Unsupported as u:
+                return [Obligation("%s#%d" % (tag, k), c.target, cfg, "unsupported", "spec: %s" % u,
+                                   ms=1000 * (time.time() - t0))]
+            finally:
+                I.verifying = c.target
         try:
             I.spec_uses = set()
             I.mutations = []
@@ -425,15 +438,16 @@ def verify_config(I, c, fn, specf, cfg):
         if c.frame is not None:
             bad = [m for m in muts if getattr(m, "owner", None) == "input" and not any(m is args1.get(a) for a in c.frame_exempt())]
         if specf is not None:
-            try:
-                S2, args2 = build_args(I, c, cfg)
-                I.verifying = None
-                sp = run_outcome(I, lambda: call_with(I, specf, args2, True))
-            except Unsupported as u:
-                I.verifying = c.target
-                return [Obligation(name, c.target, cfg, "unsupported", "spec: %s" % u, ms=1000 * (time.time() - t0))]
-            finally:
-                I.verifying = c.target
+            if sp is None:
+                try:
+                    S2, args2 = build_args(I, c, cfg)
+                    I.verifying = None
+                    sp = run_outcome(I, lambda: call_with(I, specf, args2, True))
+                except Unsupported as u:
+                    I.verifying = c.target
+                    return [Obligation(name, c.target, cfg, "unsupported", "spec: %s" % u, ms=1000 * (time.time() - t0))]
+                finally:
+                    I.verifying = c.target
             ok, why = compare_outcomes(I, c, real, sp, args1, args2)
             st, detail, model = "discharged", "%s | %s" % (real.describe(), notes), None
             if not ok:
